@@ -240,4 +240,72 @@ theorem returnE2E_single (r : Boxed) (out : Ty) :
     cases hw : v.wellFlagged <;> simp
     cases deliver1 v out <;> simp
 
+/-! ## I2V over lists -/
+
+theorem go_length (K : KindLists) (types : List Ty) (b : Bool) : ∀ (objs : List Boxed) (i : Nat) (vs : List RV),
+    I2V.go K types b i objs = .ok vs → vs.length = objs.length := by
+  intro objs
+  induction objs with
+  | nil => intro i vs h; simp [I2V.go] at h; subst h; rfl
+  | cons a rest ih =>
+    intro i vs h
+    simp only [I2V.go] at h
+    split at h
+    · simp at h
+    · simp at h
+    · split at h
+      · simp at h
+      · split at h
+        · simp at h
+        · rename_i ws hws
+          simp only [Except.ok.injEq] at h
+          subst h
+          simp [ih _ _ hws]
+
+theorem go_pointwise (K : KindLists) (types : List Ty) : ∀ (objs : List Boxed) (i : Nat) (vs : List RV),
+    i + objs.length = types.length →
+    I2V.go K types false i objs = .ok vs →
+    ∀ j, j < objs.length → ∃ t a v, types[i + j]? = some t ∧ objs[j]? = some a ∧ vs[j]? = some v ∧ toValue K a t = .ok v := by
+  intro objs
+  induction objs with
+  | nil => intro i vs _ _ j hj; simp at hj
+  | cons a rest ih =>
+    intro i vs hlen h j hj
+    have hi : i < types.length := by simp at hlen; omega
+    simp only [I2V.go] at h
+    by_cases hc : i + 1 < types.length
+    · simp only [hc, if_true, List.getElem?_eq_getElem hi, Option.map_some] at h
+      split at h
+      · simp at h
+      · rename_i w hw
+        split at h
+        · simp at h
+        · rename_i ws hws
+          simp only [Except.ok.injEq] at h
+          subst h
+          cases j with
+          | zero => exact ⟨types[i], a, w, by simp [List.getElem?_eq_getElem hi], by simp, by simp, hw⟩
+          | succ k =>
+            have hk : k < rest.length := by simp at hj; omega
+            obtain ⟨t, a', v, h1, h2, h3, h4⟩ := ih (i + 1) ws (by simp at hlen; omega) hws k hk
+            exact ⟨t, a', v, by rw [← h1]; congr 1; omega, by simpa using h2, by simpa using h3, h4⟩
+    · have hl : types.getLast? = some types[i] := by
+        have : types.length - 1 = i := by omega
+        rw [List.getLast?_eq_getElem?, this, List.getElem?_eq_getElem hi]
+      simp only [hc, if_false, hl, Option.map_some, Bool.false_eq_true] at h
+      split at h
+      · simp at h
+      · rename_i w hw
+        split at h
+        · simp at h
+        · rename_i ws hws
+          simp only [Except.ok.injEq] at h
+          subst h
+          cases j with
+          | zero => exact ⟨types[i], a, w, by simp [List.getElem?_eq_getElem hi], by simp, by simp, hw⟩
+          | succ k =>
+            have hk : k < rest.length := by simp at hj; omega
+            obtain ⟨t, a', v, h1, h2, h3, h4⟩ := ih (i + 1) ws (by simp at hlen; omega) hws k hk
+            exact ⟨t, a', v, by rw [← h1]; congr 1; omega, by simpa using h2, by simpa using h3, h4⟩
+
 end C09L
